@@ -224,7 +224,8 @@ struct SampledFunctionInput {
 }
 impl SampledFunctionInput {
     fn map(&self, x: f32) -> (usize, usize, f32) {
-        let x = x.clamp(self.domain.0, self.domain.1);
+        // not f32::clamp: it panics for a /Domain whose bounds are reversed or NaN
+        let x = x.max(self.domain.0).min(self.domain.1);
         let y = x.mul_add(self.encode_scale, self.encode_offset);
         (y.floor() as usize, self.size, y.fract())
     }
